@@ -24,6 +24,7 @@ import (
 	"io"
 	"net"
 	"os"
+	"runtime"
 	"sort"
 	"sync"
 	"sync/atomic"
@@ -53,7 +54,16 @@ type c19Cfg struct {
 	// the leader's address); all parties start Connect together
 	SlowParty int
 	SlowMs    int
+	// mode "failjoin": before party FailParty joins successfully, a failed attempt happens:
+	// FailKind 1 its Join on an address that is busy | 2 its Join while the leader is not
+	// listening yet | 3 it Joins and is Closed before Connect, a replacement joins | 4 a stray
+	// TCP connection to the leader that sends nothing and closes | 5 one that sends garbage;
+	// then two garbage collections, then the real Join, then everybody calls Connect
+	FailParty int
+	FailKind  int
 }
+
+var c19FailKinds = []string{"", "busy-address", "leader-not-listening", "closed-before-connect", "stray-silent-connection", "stray-garbage-connection"}
 
 // c19Forwarder: a TCP forwarder to [target]; client -> target is copied at once, target ->
 // client is delivered [delay] late (order and pipelining preserved).
@@ -246,10 +256,11 @@ func c19Close(nw *p2p.Network) {
 // c19Run runs one configuration on the real code.
 func c19Run(cfg c19Cfg, rng *RNG) ([]c19Party, error) {
 	n, k := cfg.N, cfg.K
-	addrs, err := c19FreePorts(n)
+	addrs, err := c19FreePorts(n + 1) // addrs[n]: the address of a failed attempt
 	if err != nil {
 		return nil, err
 	}
+	conc := cfg.Mode == "late" || cfg.Mode == "slow" || cfg.Mode == "failjoin"
 
 	var lastEvent atomic.Int64
 	touch := func() { lastEvent.Store(time.Now().UnixNano()) }
@@ -282,16 +293,24 @@ func c19Run(cfg c19Cfg, rng *RNG) ([]c19Party, error) {
 			time.Sleep(d)
 			touch()
 		})
-	case "late", "slow":
+	case "late", "slow", "failjoin":
 		// runs concurrently with other runs: leaves the global hook alone
 	default:
 		p2p.SetVerifYield(func(site string) { touch() })
 	}
-	if cfg.Mode != "late" && cfg.Mode != "slow" {
+	if !conc {
 		defer p2p.SetVerifYield(nil)
 	}
 
 	nws := make([]*p2p.Network, n)
+	if cfg.Mode == "failjoin" && cfg.FailKind == 2 {
+		if nwX, jerr := p2p.Join(addrs[0], addrs[n], cfg.FailParty, k); jerr == nil {
+			c19Close(nwX)
+			return nil, fmt.Errorf("Join towards a leader that is not listening succeeded")
+		}
+		runtime.GC()
+		runtime.GC()
+	}
 	nws[0], err = p2p.Create(addrs[0], n, k)
 	if err != nil {
 		return nil, err
@@ -299,6 +318,39 @@ func c19Run(cfg c19Cfg, rng *RNG) ([]c19Party, error) {
 	for _, j := range cfg.Order {
 		if cfg.JoinGapMs > 0 {
 			time.Sleep(time.Duration(rng.Intn(cfg.JoinGapMs+1)) * time.Millisecond)
+		}
+		if cfg.Mode == "failjoin" && j == cfg.FailParty && cfg.FailKind != 2 {
+			switch cfg.FailKind {
+			case 1:
+				busy, lerr := net.Listen("tcp", addrs[n])
+				if lerr != nil {
+					return nil, lerr
+				}
+				defer busy.Close()
+				if nwX, jerr := p2p.Join(addrs[0], addrs[n], j, k); jerr == nil {
+					c19Close(nwX)
+					return nil, fmt.Errorf("Join on a busy address succeeded")
+				}
+			case 3:
+				nwX, jerr := p2p.Join(addrs[0], addrs[n], j, k)
+				if jerr != nil {
+					return nil, jerr
+				}
+				c19Close(nwX)
+			case 4, 5:
+				sc, derr := net.Dial("tcp", addrs[0])
+				if derr != nil {
+					return nil, derr
+				}
+				if cfg.FailKind == 5 {
+					sc.Write([]byte("GET / HTTP/1.0\r\n\r\n"))
+				}
+				sc.Close()
+			}
+			runtime.GC()
+			time.Sleep(10 * time.Millisecond)
+			runtime.GC()
+			time.Sleep(10 * time.Millisecond)
 		}
 		leaderAddr := addrs[0]
 		if cfg.Mode == "slow" && j == cfg.SlowParty {
@@ -412,7 +464,7 @@ func c19Run(cfg c19Cfg, rng *RNG) ([]c19Party, error) {
 		close(release)
 		touch()
 		waitRest(250*time.Millisecond, 5*time.Second)
-	} else if cfg.Mode == "late" || cfg.Mode == "slow" {
+	} else if conc {
 		st := time.Duration(cfg.StaggerMs+cfg.SlowMs) * time.Millisecond
 		waitRest(st+1500*time.Millisecond, st+8*time.Second)
 	} else {
@@ -879,6 +931,8 @@ func runC19(c *Ctx) error {
 			fkey = "c19:late-start:" + who + ":" + sym
 		case cfg.Mode == "slow":
 			fkey = fmt.Sprintf("c19:slow-leader-link:party%d:%s", cfg.SlowParty, sym)
+		case cfg.Mode == "failjoin":
+			fkey = fmt.Sprintf("c19:failed-join-then-retry:%s:%s", c19FailKinds[cfg.FailKind], sym)
 		case f11:
 			fkey = "c19:acceptConn:need-before-addPeer:" + cfg.Mode + ":" + sym
 		default:
@@ -892,6 +946,10 @@ func runC19(c *Ctx) error {
 		if cfg.Mode == "slow" {
 			what = fmt.Sprintf("n=%d k=%d join order %v: data from the leader reaches party %d %d ms late (TCP forwarder on its link to the leader), all parties start Connect together: %v",
 				cfg.N, cfg.K, cfg.Order, cfg.SlowParty, cfg.SlowMs, symptoms)
+		}
+		if cfg.Mode == "failjoin" {
+			what = fmt.Sprintf("n=%d k=%d join order %v: failed attempt (%s) for party %d, two garbage collections, then its successful Join on a free address, then all parties Connect: %v",
+				cfg.N, cfg.K, cfg.Order, c19FailKinds[cfg.FailKind], cfg.FailParty, symptoms)
 		}
 		c.Fail(fkey, what, map[string]interface{}{"cfg": cfg, "observed": obs.String(), "symptoms": symptoms})
 		if cfg.Mode == "freeze" {
@@ -931,6 +989,18 @@ func runC19(c *Ctx) error {
 			lates = append(lates, c19Cfg{N: nk[0], K: nk[1], Order: c19Perm(c.rng, nk[0], sp%3), Mode: "slow", Late: -1,
 				SlowParty: sp, SlowMs: c.rng.Range(100, 400)})
 		}
+	}
+	// failed-attempt scenarios: a Join that fails (own address busy; leader not listening yet)
+	// followed by a successful one.  Kinds 3..5 (a joined party closed before Connect, stray
+	// connections to the leader) only with C19_EXPERIMENTAL set: see notes/C19-findings.md.
+	failKinds := []int{1, 2, 1, 2}
+	if os.Getenv("C19_EXPERIMENTAL") != "" {
+		failKinds = append(failKinds, 3, 4, 5)
+	}
+	for x, fk := range failKinds {
+		nn := []int{3, 2, 2, 4}[x%4]
+		lates = append(lates, c19Cfg{N: nn, K: 1 + x%2, Order: c19Perm(c.rng, nn, x%3), Mode: "failjoin", Late: -1,
+			FailParty: 1 + c.rng.Intn(nn-1), FailKind: fk})
 	}
 	type lateRes struct {
 		res []c19Party
